@@ -51,18 +51,22 @@ def build (name : String) (gmw : Bool) (par : Nat) (x y w : List Nat) (nz : Nat)
   | "mux" => newMUX (w.getD 0 0) x y nz
   | "index" => ok (newIndex par x y)
   | "hamming" => ok (hamming gmw x y nz)
-  | "udiv" => if nz ≤ mx ∧ !gmw then ok (do let d ← uDividerLong gmw x y nz 0; pure d.1) else pure none
-  | "umod" => if nz ≤ mx ∧ !gmw then ok (do let d ← uDividerLong gmw x y 0 nz; pure d.2) else pure none
-  | "udivmod" => if nz ≤ mx ∧ !gmw then ok (do let d ← uDividerLong gmw x y nz nz; pure (d.1 ++ d.2)) else pure none
-  | "udivlong" => if nz ≤ mx then ok (do let d ← uDividerLong gmw x y nz nz; pure (d.1 ++ d.2)) else pure none
-  | "idiv" => if nz ≤ mx ∧ !gmw then ok (do let d ← iDivider gmw x y nz 0; pure d.1) else pure none
-  | "imod" => if nz ≤ mx ∧ !gmw then ok (do let d ← iDivider gmw x y 0 nz; pure d.2) else pure none
+  | "udiv" => if !gmw then ok (do let d ← uDividerLong gmw x y nz 0; pure d.1)
+      else ok (do let d ← goldschmidt x y nz 0; pure d.1)
+  | "umod" => if !gmw then ok (do let d ← uDividerLong gmw x y 0 nz; pure d.2)
+      else ok (do let d ← goldschmidt x y 0 nz; pure d.2)
+  | "udivmod" => if !gmw then ok (do let d ← uDividerLong gmw x y nz nz; pure (d.1 ++ d.2))
+      else ok (do let d ← goldschmidt x y nz nz; pure (d.1 ++ d.2))
+  | "udivgold" => ok (do let d ← goldschmidt x y nz nz; pure (d.1 ++ d.2))
+  | "udivlong" => if true then ok (do let d ← uDividerLong gmw x y nz nz; pure (d.1 ++ d.2)) else pure none
+  | "idiv" => ok (do let d ← iDivider gmw x y nz 0; pure d.1)
+  | "imod" => ok (do let d ← iDivider gmw x y 0 nz; pure d.2)
   | _ => pure none
 
 def known (name : String) : Bool :=
   ["add", "sub", "addks", "subks", "mul", "mularray", "mulwallace", "mulkara", "ugt", "uge", "ult", "ule",
    "igt", "ige", "ilt", "ile", "eq", "neq", "band", "bor", "bxor", "bclr", "land", "lor", "bts", "btc",
-   "mux", "index", "hamming", "udiv", "umod", "udivmod", "udivlong", "idiv", "imod"].contains name
+   "mux", "index", "hamming", "udiv", "umod", "udivmod", "udivlong", "udivgold", "idiv", "imod"].contains name
 
 /-- Build like the harness: inputs `x ‖ y ‖ w`, optional prologue, builder, `ret`. -/
 def buildCircuit (name : String) (gmw pro : Bool) (nx ny nw nz par : Nat) : Option (St × List Nat) :=
@@ -76,10 +80,139 @@ def buildCircuit (name : String) (gmw pro : Bool) (nx ny nw nz par : Nat) : Opti
 
 def nat! (s : String) : Nat := s.toNat?.getD 0
 
+/-! ### Validated hypothesis `goldschmidt-estimate-within-one`
+
+The quotient estimate of `NewUDividerGoldschmidtFast` (the Lean generator
+`goldEstimate`, tied gate for gate to the Go code by T4) is evaluated
+bit-sliced (64 operand pairs per pass) and compared with `⌊a / b⌋`. -/
+
+def evalSliced (gs : Array Gate) (inp : Array UInt64) : Array UInt64 := Id.run do
+  let mut v := inp
+  for g in gs do
+    let a := v.getD g.in0 0
+    let b := v.getD g.in1 0
+    let r := match g.op with
+      | .xor => a ^^^ b | .xnor => ~~~(a ^^^ b) | .and => a &&& b | .or => a ||| b | .inv => ~~~a
+    v := v.push r
+  return v
+
+/-- The estimate circuit for operand width `n`: state and the estimate wires. -/
+def estCircuit (n : Nat) : St × List Nat :=
+  let s0 := initSt (2 * n) true
+  let r := (do let p ← zeroPad (inputWires 0 n) (inputWires n n); goldEstimate p.1 p.2) s0
+  (r.2, r.1)
+
+structure EstStat where
+  pairs : Nat := 0
+  viol  : Nat := 0
+  minD  : Int := 0
+  maxD  : Int := 0
+  ex    : String := "-"
+
+/-- Evaluate one batch (at most 64 pairs, `b ≠ 0`). -/
+def estBatch (n : Nat) (gs : Array Gate) (qw : Array Nat) (ps : Array (Nat × Nat)) (st : EstStat) : EstStat := Id.run do
+  let mut inp : Array UInt64 := Array.replicate (2 * n) 0
+  for i in [0:n] do
+    let mut wa : UInt64 := 0
+    let mut wb : UInt64 := 0
+    for k in [0:ps.size] do
+      let p := ps[k]!
+      if p.1.testBit i then wa := wa ||| ((1 : UInt64) <<< k.toUInt64)
+      if p.2.testBit i then wb := wb ||| ((1 : UInt64) <<< k.toUInt64)
+    inp := inp.set! i wa
+    inp := inp.set! (n + i) wb
+  let v := evalSliced gs inp
+  let mut st := st
+  for k in [0:ps.size] do
+    let p := ps[k]!
+    let mut q : Nat := 0
+    for i in [0:qw.size] do
+      if ((v.getD qw[i]! 0) >>> k.toUInt64) &&& 1 == 1 then q := q ||| (1 <<< i)
+    let d : Int := (q : Int) - ((p.1 / p.2 : Nat) : Int)
+    let bad := d < -1 || d > 1
+    st := { pairs := st.pairs + 1,
+            viol := if bad then st.viol + 1 else st.viol,
+            minD := if d < st.minD then d else st.minD,
+            maxD := if d > st.maxD then d else st.maxD,
+            ex := if bad && st.ex == "-" then s!"{p.1}/{p.2}:estimate={q}" else st.ex }
+  return st
+
+def estRun (n : Nat) (pairs : Array (Nat × Nat)) : String := Id.run do
+  let (s, qws) := estCircuit n
+  let gs := s.gates
+  let qw := qws.toArray
+  let mut st : EstStat := {}
+  let mut batch : Array (Nat × Nat) := #[]
+  for p in pairs do
+    if p.2 != 0 then
+      batch := batch.push p
+      if batch.size == 64 then
+        st := estBatch n gs qw batch st
+        batch := #[]
+  if batch.size > 0 then st := estBatch n gs qw batch st
+  return s!"n={n} gates={gs.size} estimate_bits={qw.size} pairs={st.pairs} min={st.minD} max={st.maxD} viol={st.viol} ex={st.ex}"
+
+/-- All pairs of width `n`, streamed (no big array). -/
+def estExhaustive (n : Nat) : String := Id.run do
+  let (s, qws) := estCircuit n
+  let gs := s.gates
+  let qw := qws.toArray
+  let mut st : EstStat := {}
+  let mut batch : Array (Nat × Nat) := #[]
+  for a in [0:2 ^ n] do
+    for b in [1:2 ^ n] do
+      batch := batch.push (a, b)
+      if batch.size == 64 then
+        st := estBatch n gs qw batch st
+        batch := #[]
+  if batch.size > 0 then st := estBatch n gs qw batch st
+  return s!"n={n} gates={gs.size} estimate_bits={qw.size} pairs={st.pairs} min={st.minD} max={st.maxD} viol={st.viol} ex={st.ex}"
+
+def lcg (x : Nat) : Nat := (x * 6364136223846793005 + 1442695040888963407) % 2 ^ 64
+
+/-- Structured operand pairs of width `n`: random values of random bit length,
+powers of two and their neighbours, all-ones, small divisors, dividends
+`m·b + {0, b-1, -1}`, `b ∈ {a-1, a, a+1}`. -/
+def estStructured (n count seed : Nat) : Array (Nat × Nat) := Id.run do
+  let m := 2 ^ n
+  let mut x := lcg (seed + 977 * n + 1)
+  let mut out : Array (Nat × Nat) := #[]
+  for i in [0:count] do
+    x := lcg x
+    let r1 := x
+    x := lcg x
+    let r2 := x
+    x := lcg x
+    let r3 := x
+    let la := r3 % n + 1
+    let lb := (r3 / 64) % n + 1
+    let va := r1 % 2 ^ la
+    let vb := r2 % 2 ^ lb
+    let special (r l : Nat) : Nat :=
+      match r % 5 with
+      | 0 => 2 ^ (l - 1) | 1 => 2 ^ l - 1 | 2 => 2 ^ (l - 1) + 1 | 3 => (2 ^ l - 1) - (r / 8) % 4 | _ => (r / 8) % 16 + 1
+    let p : Nat × Nat :=
+      match i % 8 with
+      | 0 => (va, vb)
+      | 1 => (r1 % m, vb)
+      | 2 => (special r1 la, special r2 lb)
+      | 3 => (r1 % m, special r2 lb)
+      | 4 => let b := vb + 1; let k := (r1 % m) / b; (k * b, b)
+      | 5 => let b := vb + 1; let k := (r1 % m) / b; (k * b + b - 1, b)
+      | 6 => let b := vb + 2; let k := (r1 % m) / b; (k * b - 1, b)
+      | _ => let a := r1 % m; (a, a + 1 - r2 % 3)
+    out := out.push (p.1 % m, p.2 % m)
+  return out
+
+
 /-- Ops:
  `gen  <builder> <target> <pro> <nx> <ny> <nw> <nz> <par>`          -> canonical gate list
  `run  <builder> <target> <pro> <nx> <ny> <nw> <nz> <par> <inbits>` -> output bits of the generated circuit
- `evalc <numWires> <nIn> <nOut> <gates> <inbits>`                   -> `Circuit.compute` of a compiled circuit -/
+ `evalc <numWires> <nIn> <nOut> <gates> <inbits>`                   -> `Circuit.compute` of a compiled circuit
+ `estexh <n>` / `estrnd <n> <count> <seed>`                           -> Goldschmidt estimate vs floor(a/b): all /
+                                                                        structured operand pairs of width n
+ `corrstep <old|new> <n> <a> <b> <q>`                                -> quotient and remainder of the Goldschmidt
+                                                                        correction step on the estimate `q` -/
 def handle (args : List String) : String :=
   match args with
   | ["gen", b, t, pro, nx, ny, nw, nz, par] =>
@@ -95,6 +228,17 @@ def handle (args : List String) : String :=
       let v := s.vals (parseBits inb)
       bitsStr (outs.map fun w => v.getD w false)
   | ["thr", n] => toString (multiplierArrayThreshold (nat! n))
+  | ["estexh", n] => estExhaustive (nat! n)
+  | ["estrnd", n, count, seed] => estRun (nat! n) (estStructured (nat! n) (nat! count) (nat! seed))
+  | ["corrstep", which, n, a, b, q] =>
+    -- the Goldschmidt correction step alone (current / pre-776d360 definition) on a given estimate
+    let n := nat! n
+    let f := if which == "old" then goldCorrectionOld else goldCorrection
+    let qv := evalBuilder3 (fun x y z => do let d ← f x y z n n; pure d.1) true
+      (ofNat n (nat! a)) (ofNat n (nat! b)) (ofNat n (nat! q))
+    let rv := evalBuilder3 (fun x y z => do let d ← f x y z n n; pure d.2) true
+      (ofNat n (nat! a)) (ofNat n (nat! b)) (ofNat n (nat! q))
+    s!"{toNat qv} {toNat rv}"
   | ["evalc", nw, nin, nout, gates, inb] =>
     match parseCircuit nw nin nout gates with
     | some c => bitsStr (c.compute (parseBits inb))
